@@ -201,6 +201,21 @@ def Prog.depsFrom : Prog R → List Bool → List Bool
 /-- for every instruction: does any input variable contribute to it -/
 def Prog.deps (p : Prog R) : List Bool := Prog.depsFrom p []
 
+/-- is instruction `i` an input variable -/
+def Prog.isInput (p : Prog R) (i : Nat) : Bool := (p.map Instr.isVar).getD i false
+
+/-- does input `i` contribute to an instruction (`rs`: the answers for the earlier ones; the
+    instruction's own position is `rs.length`) -/
+def Instr.reach (i : Nat) (rs : List Bool) (ins : Instr R) : Bool :=
+  (ins.isVar && rs.length == i) || ins.operands.any (rs.getD · false)
+
+def Prog.reachFrom (i : Nat) : Prog R → List Bool → List Bool
+  | [], rs => rs
+  | ins :: rest, rs => Prog.reachFrom i rest (rs ++ [ins.reach i rs])
+
+/-- for every instruction: does input `i` contribute to it (syntactically) -/
+def Prog.reach (p : Prog R) (i : Nat) : List Bool := Prog.reachFrom i p []
+
 /-- positions of the input variables, in creation order -/
 def Prog.varsFrom : Prog R → Nat → List Nat
   | [], _ => []
